@@ -31,7 +31,7 @@ OPN = {1: "vec_znx_normalize", 2: "vec_znx_normalize_assign", 3: "vec_znx_rsh", 
        11: "vec_znx_rotate_assign", 12: "vec_znx_automorphism_assign", 13: "vec_znx_mul_xp_minus_one_assign", 14: "vec_znx_split_ring",
        20: "vec_znx_big_normalize", 21: "vec_znx_big_automorphism_assign", 30: "vmp_prepare", 31: "vmp_apply_dft_to_dft",
        32: "vmp_apply_dft", 40: "vec_znx_idft_apply", 50: "cnv_prepare_left", 51: "cnv_prepare_right", 52: "cnv_prepare_self",
-       53: "cnv_apply_dft", 54: "cnv_by_const_apply", 55: "cnv_pairwise_apply_dft",
+       60: "scratch_split_mut", 53: "cnv_apply_dft", 54: "cnv_by_const_apply", 55: "cnv_pairwise_apply_dft",
        101: "lwe_encrypt_sk", 102: "lwe_decrypt", 103: "glwe_encrypt_sk", 104: "glwe_encrypt_pk", 105: "glwe_decrypt",
        106: "glwe_keyswitch", 107: "glwe_keyswitch_assign", 108: "glwe_external_product", 109: "glwe_external_product_assign",
        110: "glwe_automorphism", 111: "glwe_automorphism_add", 112: "glwe_trace", 113: "glwe_normalize", 114: "glwe_rsh",
@@ -68,10 +68,8 @@ def classify(record):
         return None                      # canary damage / foreign panics are never a known class
     if kind == 0:
         return f"{name}.scratch_dependent" if eq == 0 else None
-    if op == 55:
-        return "cnv_pairwise_apply_dft.args_swapped"
-    if op in (101, 102):
-        return f"{name}.unaligned"
+    if op == 60:
+        return "scratch_split_mut.unaligned_len"
     if op == 116:
         return "glwe_mul_const.underestimate"
     if op in (125, 126):
